@@ -1,6 +1,36 @@
 (* C01 — Task group join: no child outlives its task group block.
-   This file contains only statements closed by `exact` and their Print Assumptions. *)
-From AV Require Import Base Machine GroupInv GroupThms.
+   This file contains only statements closed by `exact` and their Print Assumptions.
+   `reach s` = s is the state after some op list run from `init` (every program, every schedule). *)
+From AV Require Import Base Machine GroupInv GroupThms GroupThms4 GroupThms5 GroupThms7.
+
+(* the step at which __aexit__ of group g returns/raises (ghost flag g_left flips): every task ever spawned into g
+   is done and its task_done callback has run — for EVERY op sequence *)
+Theorem C01_group_exit_joins_all_step : forall s o g, reach s ->
+  g_left (groups s g) = false -> g_left (groups (fst (step s o)) g) = true ->
+  g_tasks (groups (fst (step s o)) g) = [] /\
+  forall t, In t (g_ever (groups (fst (step s o)) g)) ->
+    k_done (tasks (fst (step s o)) t) <> None /\ k_tdran (tasks (fst (step s o)) t) = true.
+Proof. exact group_exit_joins_all_step. Qed.
+Print Assumptions C01_group_exit_joins_all_step.
+
+Theorem C01_empty_group_all_joined : forall s g, reach s -> g_tasks (groups s g) = [] ->
+  forall t, In t (g_ever (groups s g)) -> k_done (tasks s t) <> None /\ k_tdran (tasks s t) = true.
+Proof. exact empty_group_all_joined. Qed.
+Print Assumptions C01_empty_group_all_joined.
+
+Theorem C01_group_tasks_are_pending_members : forall s g t, reach s ->
+  (In t (g_tasks (groups s g)) <-> In t (g_ever (groups s g)) /\ k_tdran (tasks s t) = false).
+Proof. exact group_tasks_are_pending_members. Qed.
+Print Assumptions C01_group_tasks_are_pending_members.
+
+(* members are added only by an accepted spawn, i.e. while the group is entered and its cancel scope active *)
+Theorem C01_group_members_grow_only_by_spawn : forall s o g, reach s ->
+  g_ever (groups (fst (step s o)) g) <> g_ever (groups s g) ->
+  (exists t, (o = ASpawn t g \/ o = AStart t g) /\ idle s t = true /\ group_active s g = true /\
+             g_ever (groups (fst (step s o)) g) = g_ever (groups s g) ++ [ntask s]) \/
+  (exists t, o = AGroupNew t /\ g = ngroup s).
+Proof. exact group_members_grow_only_by_spawn. Qed.
+Print Assumptions C01_group_members_grow_only_by_spawn.
 
 Theorem C01_no_step_after_done : forall s t, reach s -> k_done (tasks s t) <> None ->
   k_ctl (tasks s t) = CDone /\ running s <> Some t /\ idle s t = false /\
@@ -9,10 +39,19 @@ Theorem C01_no_step_after_done : forall s t, reach s -> k_done (tasks s t) <> No
 Proof. exact no_step_after_done. Qed.
 Print Assumptions C01_no_step_after_done.
 
-Theorem C01_empty_group_all_joined : forall s g, reach s -> g_tasks (groups s g) = [] ->
-  forall t, In t (g_ever (groups s g)) -> k_done (tasks s t) <> None /\ k_tdran (tasks s t) = true.
-Proof. exact empty_group_all_joined. Qed.
-Print Assumptions C01_empty_group_all_joined.
+(* done / task_done-ran / coroutine outcome are never retracted; group, handle scope, event, start future are fixed *)
+Theorem C01_task_facts_stable : forall s o, reach s ->
+  ntask s <= ntask (fst (step s o)) /\
+  forall t, t < ntask s ->
+    k_group (tasks (fst (step s o)) t) = k_group (tasks s t) /\
+    k_hscope (tasks (fst (step s o)) t) = k_hscope (tasks s t) /\
+    k_hevent (tasks (fst (step s o)) t) = k_hevent (tasks s t) /\
+    k_startfut (tasks (fst (step s o)) t) = k_startfut (tasks s t) /\
+    (forall x, k_done (tasks s t) = Some x -> k_done (tasks (fst (step s o)) t) = Some x) /\
+    (k_tdran (tasks s t) = true -> k_tdran (tasks (fst (step s o)) t) = true) /\
+    (forall x, k_final (tasks s t) = Some x -> k_final (tasks (fst (step s o)) t) = Some x).
+Proof. exact task_facts_stable. Qed.
+Print Assumptions C01_task_facts_stable.
 
 Theorem C01_handle_outcome_faithful : forall s t o, reach s -> k_group (tasks s t) <> None ->
   k_final (tasks s t) = Some o ->
@@ -27,6 +66,7 @@ Theorem C01_handle_outcome_faithful : forall s t o, reach s -> k_group (tasks s 
 Proof. exact handle_outcome_faithful. Qed.
 Print Assumptions C01_handle_outcome_faithful.
 
+(* a done child has its finished event set, except when it was cancelled before its first step *)
 Theorem C01_done_child_finished_or_never_started : forall s t, reach s -> k_group (tasks s t) <> None ->
   k_done (tasks s t) <> None ->
   (exists o, k_final (tasks s t) = Some o /\ e_set (events s (k_hevent (tasks s t))) = true) \/
